@@ -37,6 +37,8 @@ checks = {
    text='All well-formed bootstrap/add/remove histories over <=5 hosts up to length 7 (quick) / 9 (thorough) with fresh, held and partially consumed plans; counter-wrap via the tag-guarded preset and, in thorough, 2^32+10 real NewQueryPlan calls; concurrent histories checked with porcupine against a 15-line model.', ref='2/C15'),
  'C16': dict(cat='fault_enumeration', tech='runtime monitoring: backend-side observation of refresh/reconnect events, recording ReconnectPolicy, bounds oracle on the backoff calculator, outage/readiness sampled at known states',
    text='Topology sequences (add/remove/restart, failed USE earlier) with routing checked after each observable refresh; kill/mute faults on pooled and control connections, single and simultaneous; backoff calculator grid; OutageDuration() and /readiness (through proxy.Run) at states the harness knows.', ref='2/C16'),
+ 'C17': dict(cat='exploration', tech='runtime monitoring of the real binary as a subprocess: liveness + canary clients as oracle, stderr scanned for panic/fatal, hostile inputs logged before sending',
+   text='3000 (quick) / 80000 (thorough) hostile client byte streams per max-version setting (header fields over their whole range, truncations, lying lengths up to 16 MiB, hostile strings in every string field, deep nesting, hostile lz4/snappy, slow-loris), ~50 kinds of hostile backend replies incl. control-connection garbage and bad heartbeat replies, 12 malformed system.local/peers results at start-up, refresh and fail-over; after every batch two canaries (plain, lz4) must get correct answers.', ref='2/C17'),
  'C18': dict(cat='exploration', tech='Go race detector (-race build, halt_on_error=0) over the concurrent scenario families; reports deduplicated by top-most repository frames',
    text='Nine concurrent families (C01 storm/mass death/ordered deaths, C02 reorder/re-prepare, C07 concurrent USE, C08 re-prepare/late host, C14 bursts/failover, C16 topology/heal) x 2 (quick) / 10 (thorough) seeds on all cores; hook-event counts show the contended paths were reached.', ref='2/C18'),
  'C20': dict(cat='exploration', tech='runtime monitoring of the real binary as a subprocess (and proxy.Run in-process): observed STARTUP version byte, accepted version set, consistency seen at the backend, exit status',
